@@ -135,6 +135,26 @@ func c02R2(c *Ctx) {
 	c.check(dom(lb.Done, lf.Header), "R2", "begin-before-files", p.Pos(ep.Pos()), "all BEGIN rules complete before the first file", "the file loop is reachable without the BEGIN loop having finished")
 	c.check(dom(lf.Done, le.Header) && !inLoop(lf, le.Header), "R2", "end-after-files", p.Pos(ep.Pos()), "END rules run after the file loop", "the END loop is not placed after the file loop")
 	c.check(inLoop(lf, lroots.Header) && inLoop(lroots, lbf.Header) && inLoop(lroots, lef.Header), "R2", "loop-nesting", p.Pos(ep.Pos()), "files > values > roots > {BEGINFILE, pattern, ENDFILE}", "the per-root loops are not nested inside the root loop inside the file loop")
+	// successful completion: apart from the exit edges, the only successful return comes after the END loop
+	{
+		ek := EKOf(p)
+		gExit := ek.SentinelGlobal("errExit")
+		n := 0
+		for _, r := range returnsOf(ep) {
+			res := effectiveResults(r)
+			if !ek.KindsAt(res[len(res)-1], FactsOf(ep).At(r.Block())).Has(KNil) {
+				continue
+			}
+			n++
+			onExit := false
+			for _, rl := range FactsOf(ep).At(r.Block()).Rels() {
+				if rl.op == relEQ && gExit != nil && (globalLoaded(rl.y) == gExit || globalLoaded(rl.x) == gExit) {
+					onExit = true
+				}
+			}
+			c.check(onExit || dom(le.Done, r.Block()), "R2", fmt.Sprintf("success-return #%d", n), p.InstrPos(r), "a run succeeds only after the END rules, or on `exit`", "EvalProgram can report success from a return that is neither an `exit` edge nor after the file and END loops: input is left unread (its faults unreported) and rules are skipped")
+		}
+	}
 	var dec, setFile, pat *ssa.Call
 	for _, call := range callsIn(ep) {
 		cv, ok := call.(*ssa.Call)
@@ -475,6 +495,28 @@ func c02R4(c *Ctx) {
 		})
 		c.check(okP, "R4", "bodyless-rule-prints", p.Pos(pr.Pos()), "a rule without `{` gets a print statement without arguments", "a rule without a body is not given `print` with no arguments")
 	}
+}
+
+// extraGuardsBetween: the relations that hold at block `to` but not at block `from` (each relation
+// once, in the orientation the code wrote), minus those containing one of the allowed substrings.
+func extraGuardsBetween(p *Program, fn *ssa.Function, from, to *ssa.BasicBlock, allowed ...string) []string {
+	before := guardsAt(p, fn, from)
+	var out []string
+next:
+	for _, rl := range FactsOf(fn).At(to).Rels() {
+		g := p.RenderShort(rl.x) + " " + rl.op.String() + " " + p.RenderShort(rl.y)
+		if before[g] {
+			continue
+		}
+		for _, a := range allowed {
+			if strings.Contains(g, a) {
+				continue next
+			}
+		}
+		out = append(out, g)
+	}
+	sort.Strings(out)
+	return dedup(out)
 }
 
 func guardsAt(p *Program, fn *ssa.Function, b *ssa.BasicBlock) map[string]bool {
